@@ -19,7 +19,7 @@ pub fn encode_ty(ty: &tast::Ty) -> String {
         tast::Ty::TParam { name } => format!("TParam_{}", name),
         tast::Ty::TTuple { typs } => {
             let inner = typs.iter().map(encode_ty).collect::<Vec<_>>().join("_");
-            format!("Tuple_{}", inner)
+            format!("Tuple{}_{}", typs.len(), inner)
         }
         tast::Ty::TEnum { name } | tast::Ty::TStruct { name } => name.clone(),
         tast::Ty::TDyn { trait_name } => format!("Dyn_{}", trait_name),
